@@ -227,3 +227,187 @@ Definition run_spec_c12_batch (x : sx) : sx :=
                     of_bool (both_ways_free pd)])
       | _, _, _, _, _ => sx_bad end
   | _ => sx_bad end.
+
+(* ====================================================================================================
+   Additions (audit 3, defect A10).  Nothing above this line was changed.
+   The loop for EVERY genes_at_a_time = k with each pop named by a deterministic rule `pick`
+   (Model/Selection.v pick_fn: the rule sees, for every call of _update_been_filled so far, whether
+   sorted_utility_idx was recomputed, the utility array after the call and marker_gene_name_list at the
+   call, plus marker_gene_name_list now).  Inside a batch nothing is recomputed: the rule is asked again
+   with the SAME history and the grown marker_gene_name_list - for pick_pop that is exactly the next
+   pop(-1) of the same list.  Every pop is checked as in popk (a member of the list of maximal utility
+   among the members; the two early-stop tests are the code's, evaluated before the rule is asked).
+   ==================================================================================================== *)
+Section PickK.
+Variable n_genes : nat.
+Variable pairs : list nat.
+Variable marks : nat -> slot -> bool.
+Variable n : nat.
+Variable k : nat.                          (* genes_at_a_time *)
+
+Inductive bres :=
+| BOk (st : state) (pool : list nat)   (* _choose_gene returned *)
+| BIllegal (g : nat)                   (* the rule named a gene that cannot be the last element of the list *)
+| BStuck                               (* the rule named no gene *)
+| BRaise (e : kerr).                   (* RuntimeError: chose gene twice *)
+
+(* _choose_gene(chosen_idx=None, genes_at_a_time=j) *)
+Fixpoint pop_with (pick : pick_fn) (hist : list hentry) (j : nat) (st : state) (pool : list nat) : bres :=
+  match j with
+  | O => BOk st pool
+  | S j' =>
+      match pool with
+      | [] => BOk st pool                                   (* len(sorted_utility_idx) == 0: break *)
+      | _ :: _ =>
+          if exhausted st pool then BOk st pool             (* utility_array[sorted_utility_idx[-1]] <= 0: break *)
+          else match pick hist (chosen st) with
+               | None => BStuck
+               | Some g =>
+                   if is_top st pool g then
+                     if nmem g (chosen st) then BRaise (KTwice g)
+                     else pop_with pick hist j' (choose marks st g) (pool_remove g pool)
+                   else BIllegal g
+               end
+      end
+  end.
+
+Inductive wkres :=
+| WKDone (st : state) | WKIllegal (g : nat) | WKStuck | WKOutOfFuel | WKRaise (e : kerr).
+
+(* `while True`, k pops per pass *)
+Fixpoint run_with_k (pick : pick_fn) (fuel : nat) (hist : list hentry) (st : state) (pool : list nat) : wkres :=
+  match fuel with
+  | O => WKOutOfFuel
+  | S f =>
+      let hist1 := observe n_genes pairs marks n st hist in
+      let st1 := update_filled n_genes pairs marks n st in
+      if finished n_genes pairs st1 then WKDone st1
+      else match pop_with pick hist1 k st1 (refresh n_genes pairs marks n st pool) with
+           | BOk st2 pool2 => run_with_k pick f hist1 st2 pool2
+           | BIllegal g => WKIllegal g
+           | BStuck => WKStuck
+           | BRaise e => WKRaise e
+           end
+  end.
+
+(* the whole of _run_selection(genes_at_a_time = k) with the rule `pick`; for k >= 1 fuel n_genes + 1
+   always suffices (every pass that does not break pops at least one gene) *)
+Definition select_with_k (pick : pick_fn) : wkres :=
+  run_with_k pick (S n_genes) (hist0_sorted n_genes pairs marks n)
+             (start n_genes pairs marks n) (pool0 n_genes pairs marks n).
+
+(* the history a rule has seen when a recorded run (batches) ends *)
+Fixpoint hist_along_k (hist : list hentry) (st : state) (pool : list nat) (batches : list (list nat))
+  : option (list hentry) :=
+  match batches with
+  | [] => Some (observe n_genes pairs marks n st hist)
+  | b :: t => match stepk n_genes pairs marks n k st pool b with
+              | SNext st' pool' => hist_along_k (observe n_genes pairs marks n st hist) st' pool' t
+              | _ => None
+              end
+  end.
+End PickK.
+
+(* the k = 1 loop of Model/Selection.v seen as a result of the batched one *)
+Definition wk_of_wres (r : wres) : wkres :=
+  match r with
+  | WDone st => WKDone st
+  | WIllegal g => WKIllegal g
+  | WStuck => WKStuck
+  | WOutOfFuel => WKOutOfFuel
+  end.
+
+(* ---------------- select_all_markers / _marker_selection_worker, one parent, every k ---------------- *)
+Inductive parent_res_k :=
+| PKSkip
+| PKRun (ng : nat) (r : wkres)
+| PKErrOverlap
+| PKErrPair.
+
+(* Selection.select_parent with genes_at_a_time = k handed down to _run_selection *)
+Definition select_parent_k (k : nat) (pick : pick_fn) (rm : refmarkers) (query : list Z) (t : tree)
+                           (parent : option (nat * node)) (behemoth : bool) (n : nat) : parent_res_k :=
+  match keep_idx rm query with
+  | [] => PKErrOverlap
+  | _ :: _ =>
+      let rm' := thin_genes rm query in
+      match leaf_pairs t parent with
+      | [] => PKSkip
+      | _ :: _ =>
+          match (if behemoth then Some rm' else downsample_pairs rm' (leaf_pairs t parent)) with
+          | None => PKErrPair
+          | Some arr =>
+              match parent_idx arr t parent true with
+              | None => PKErrPair
+              | Some idx => PKRun (length (rm_genes arr))
+                                  (select_with_k (length (rm_genes arr)) idx (marks_of (pair_tables arr)) n k pick)
+              end
+          end
+      end
+  end.
+
+Definition pk_of_parent_res (r : parent_res) : parent_res_k :=
+  match r with
+  | PSkip => PKSkip
+  | PRun ng w => PKRun ng (wk_of_wres w)
+  | PErrOverlap => PKErrOverlap
+  | PErrPair => PKErrPair
+  end.
+
+(* ---------------- wire (dispatch.d/c12_downsample.txt) ---------------- *)
+Definition of_wkres (r : wkres) : sx :=
+  match r with
+  | WKDone st => sx_ok (of_Lnat (chosen st))
+  | WKIllegal g => L [I 1%Z; I 1%Z; of_nat g]
+  | WKStuck => sx_err 2
+  | WKOutOfFuel => sx_err 3
+  | WKRaise e => of_kerr e
+  end.
+Definition of_parent_res_k (r : parent_res_k) : sx :=
+  match r with
+  | PKSkip => L [I 0%Z; L []]
+  | PKRun ng w => L [I 1%Z; of_nat ng; of_wkres w]
+  | PKErrOverlap => L [I 2%Z; L []]
+  | PKErrPair => L [I 3%Z; L []]
+  end.
+
+(* tag 1264: (n_genes pd idx n k prefix batches) -> the history (flag, utility array, chosen) along the
+   recorded batched run *)
+Definition run_history_k (x : sx) : sx :=
+  match x with
+  | L [a; b; e; c; kk; d; f] =>
+      match sx_nat a, sx_pd b, sx_Lnat e, sx_nat c, sx_nat kk, sx_Lnat d, sx_LLnat f with
+      | Some ng, Some pd, Some ps, Some n, Some k, Some pre, Some bs =>
+          let m := marks_of pd in
+          if list_eqb pre (chosen (start ng ps m n)) then
+            match hist_along_k ng ps m n k (hist0_sorted ng ps m n) (start ng ps m n) (pool0 ng ps m n) bs with
+            | Some h => sx_ok (of_list of_hentry h)
+            | None => sx_err 1
+            end
+          else sx_err 2
+      | _, _, _, _, _, _, _ => sx_bad end
+  | _ => sx_bad end.
+
+(* tag 1265: (n_genes pd idx n k table) -> _run_selection(genes_at_a_time = k) with the rule pick_pop
+   (np.argsort given as a table) *)
+Definition run_select_pop_k (x : sx) : sx :=
+  match x with
+  | L [a; b; e; c; kk; d] =>
+      match sx_nat a, sx_pd b, sx_Lnat e, sx_nat c, sx_nat kk, sx_list (sx_pair sx_LZ sx_Lnat) d with
+      | Some ng, Some pd, Some ps, Some n, Some k, Some tbl =>
+          of_wkres (select_with_k ng ps (marks_of pd) n k (pick_pop (table_sorter tbl)))
+      | _, _, _, _, _, _ => sx_bad end
+  | _ => sx_bad end.
+
+(* tag 1266: (refmarkers query tree parent n k table) -> select_parent_k with the rule pick_pop, the
+   parent treated as a behemoth and not *)
+Definition run_select_parent_k (x : sx) : sx :=
+  match x with
+  | L [a; b; c; d; f; kk; g] =>
+      match sx_refmarkers a, sx_LZ b, sx_tree c, sx_parent d, sx_nat f, sx_nat kk, sx_list (sx_pair sx_LZ sx_Lnat) g with
+      | Some rm, Some q, Some t, Some p, Some n, Some k, Some tbl =>
+          let pick := pick_pop (table_sorter tbl) in
+          L [of_parent_res_k (select_parent_k k pick rm q t p true n);
+             of_parent_res_k (select_parent_k k pick rm q t p false n)]
+      | _, _, _, _, _, _, _ => sx_bad end
+  | _ => sx_bad end.
